@@ -155,3 +155,46 @@ def run(ctx: Ctx) -> bool:
               "side-effecting nodes are not chained in insertion order (or a container holding one is not ordered in its parent), or the patched "
               "Hugr.add_node leaks out of the compilation")
     return True
+
+
+def run_classifier(ctx: Ctx) -> bool:
+    """R-C05.2 (semantic form)  which operations count as side effects -- `may_have_side_effect`, interpreted.
+
+    The function is interpreted (helpers followed) on operation tokens, with the module's list of side-effecting extension
+    operations given as a model list: direct and indirect calls -> True whatever they call; an extension operation / a custom
+    operation -> True iff its qualified name (`extension.op`, or the bare name without an extension) is in the list; every other
+    operation (tags, tuples, constants, loops, conditionals) -> False.
+    """
+    idx = ctx.idx
+    f = idx.find_func("may_have_side_effect", CORE)
+    key = f"{f.qualname}#calls-and-listed-operations"
+    p0 = f.node.args.args[0].arg
+    listed = ["tket.result.result_int", "prelude.panic", "tket.quantum.QAlloc", "bare_op"]
+
+    def ext(qname):
+        return Tok(f"ExtOp({qname})", __class__="ExtOp", __ident__=1, __methods__={"op_def": lambda r, a: Tok("op_def", __methods__={"qualified_name": lambda r2, a2: qname})})
+
+    def custom(extension, name):
+        return Tok(f"Custom({extension},{name})", __class__="Custom", op_name=name, extension=extension, __match_args__=("op_name", "extension"), __ident__=1)
+
+    cases = [
+        (Tok("Call", __class__="Call", __ident__=1), True), (Tok("CallIndirect", __class__="CallIndirect", __ident__=1), True),
+        (ext("tket.result.result_int"), True), (ext("prelude.panic"), True), (ext("tket.quantum.QAlloc"), True), (ext("arithmetic.int.iadd"), False), (ext("tket.quantum.H"), False),
+        (custom("prelude", "panic"), True), (custom("tket.result", "result_int"), True), (custom("arithmetic.int", "iadd"), False), (custom("", "bare_op"), True),
+        (custom(None, "bare_op"), True), (custom("", "other_op"), False), (custom("prelude", "bare_op"), False),
+        (Tok("Tag", __class__="Tag", __ident__=1), False), (Tok("MakeTuple", __class__="MakeTuple", __ident__=1), False), (Tok("Const", __class__="Const", __ident__=1), False),
+        (Tok("TailLoop", __class__="TailLoop", __ident__=1), False), (Tok("Conditional", __class__="Conditional", __ident__=1), False), (Tok("Input", __class__="Input", __ident__=1), False),
+    ]
+    bad = []
+    try:
+        for op_tok, want in cases:
+            out = PyEval(idx, CORE, max_depth=6).run(f.node.body, {p0: op_tok, "__globals__": {"EXTENSION_OPS_WITH_SIDE_EFFECTS": list(listed)}})
+            got = out[1] if out[0] == "return" else out
+            if got is not want:
+                bad.append({"operation": op_tok.name, "may_have_side_effect": got if isinstance(got, bool) else repr(got), "should_be": want})
+    except (Unsupported, Raised) as e:
+        ctx.undecided("R-C05.2", key, f.where, str(e))
+        return False
+    ctx.check(not bad, "R-C05.2", key, f.where, {"cases": len(cases), "listed_operations_in_the_model": listed, "counterexamples": bad[:4]},
+              "function calls (or a listed operation) are not kept in program order, or every operation is ordered")
+    return True
